@@ -152,6 +152,7 @@ func (e *Engine) registerIntrinsics() {
 		fr.i.jsonSizes[m] = args[1]
 		return nil
 	})
+	e.reg(v+"Repeat", func(fr *frame, args []value) value { return 1 })
 	e.reg(v+"Symbolic", func(fr *frame, args []value) value { return true })
 	e.reg(v+"Panics", func(fr *frame, args []value) (res value) {
 		defer func() {
